@@ -6,6 +6,7 @@ import (
 	"context"
 	"errors"
 	"fmt"
+	"io"
 	"sort"
 	"sync"
 	"time"
@@ -51,6 +52,28 @@ type Consensus struct {
 	shutdown     bool
 }
 
+// snapshotState makes restoring a Raft snapshot replace the state: Raft
+// requires FSM.Restore to discard all previous state, while
+// dsstate.Unmarshal only adds the snapshot's entries to the store.
+type snapshotState struct {
+	*dsstate.State
+}
+
+// Unmarshal empties the state and then loads the snapshot.
+func (st *snapshotState) Unmarshal(r io.Reader) error {
+	ctx := context.Background()
+	pins, err := st.List(ctx)
+	if err != nil {
+		return err
+	}
+	for _, pin := range pins {
+		if err := st.Rm(ctx, pin.Cid); err != nil {
+			return err
+		}
+	}
+	return st.State.Unmarshal(r)
+}
+
 // NewConsensus builds a new ClusterConsensus component using Raft.
 //
 // Raft saves state snapshots regularly and persists log data in a bolt
@@ -82,7 +105,7 @@ func NewConsensus(
 	if err != nil {
 		return nil, err
 	}
-	consensus := libp2praft.NewOpLog(state, baseOp)
+	consensus := libp2praft.NewOpLog(&snapshotState{state}, baseOp)
 	raft, err := newRaftWrapper(host, cfg, consensus.FSM(), staging)
 	if err != nil {
 		logger.Error("error creating raft: ", err)
